@@ -104,6 +104,20 @@ func genMetric(r *mon.Rand) m3thrift.Metric {
 			m.Value.Count, m.Value.Gauge = 0, 0
 		}
 	}
+	if r.Chance(1, 12) {
+		// a value struct that is entirely zero (with any type, the zero type included):
+		// the field is still there
+		m.Value.Count, m.Value.Timer, m.Value.Gauge = 0, 0, 0
+		if r.Bool() {
+			m.Value.MetricType = 0
+		}
+		if r.Bool() {
+			m.Timestamp = 0
+		}
+		if r.Chance(1, 3) {
+			m.Name = ""
+		}
+	}
 	return m
 }
 
